@@ -1,3 +1,17 @@
 register("C10", "atomic", "fault_enumeration",
  "Every mutating file-system step of every generated document/cache write is a crash point (death before it; torn prefix classes inside each write chunk), enumerated completely per scenario; plus every reader position among the writer's steps and seeded random/PCT interleavings. Scenarios are sampled by seed, so this is complete per scenario and evidence across scenarios, not proof.",
  TB, "deterministic simulation: fork-and-kill crash enumeration over the recorded step trace + seeded reader/writer interleavings", "DESIGN.md 5 (C10)")
+register("C11", "crashops", "fault_enumeration",
+ "Per generated scenario (pre-state x lifecycle operation x handle provenance) the single-fault space of the operation's recorded step trace is enumerated completely: process death before every mutating step, torn prefixes of every write, and EIO/ENOSPC/EACCES/EROFS/EXDEV at every step; double faults are sampled. After each fault a fresh session checks I1-I4 on marker files and lineages and the caller-visible outcome. Scenarios are sampled by seed.",
+ TB, "deterministic simulation: fork-and-kill / errno injection enumerated over the recorded step trace of each lifecycle operation", "DESIGN.md 5 (C11)")
+LT = ("trusted: the reference model of Appendix A; observation through raw reads and fresh signac handles; "
+      "the seam sees every file-system call (used for the 'wrote nothing' oracles)")
+register("C02", "lifecycle", "exploration",
+ "Seeded histories of open / init / re-init / restart / cache update / lookups over typed state points and mined id-prefix families; the call log decides 'open_job wrote nothing' and 'init never rewrote a valid file'; every prefix length 1..32 of every id is resolved against the model's prefix table. Sampled histories: evidence, not proof.",
+ LT, "deterministic simulation: seeded operation histories with restarts / listing-order permutation / cache states, model + call-log oracle", "DESIGN.md 5 (C02)")
+register("C03", "lifecycle", "exploration",
+ "Seeded operation histories (<= 60 steps) over a small universe on two projects with several live handles per job; after every step the raw disk, a fresh session, the session's long-lived project handle and check() are compared with a plain in-memory model; decoy entries and leftovers are checked. Sampled histories: evidence, not proof; bounded-exhaustive enumeration is not done (that would be model checking).",
+ LT, "deterministic simulation: seeded operation histories against an executable reference model, restarts and listing order as the fault dimension", "DESIGN.md 5 (C03)")
+register("C04", "lifecycle", "exploration",
+ "Same engine; at every state point change / move / clone the source and destination directories are byte-snapshotted before and after (carried data, refusal leaves both unchanged), and after every step every live handle (by state point, by id, copy.copy, deepcopy, pickle) must describe the job the model says it denotes. Sampled histories: evidence, not proof.",
+ LT, "deterministic simulation: seeded operation histories with byte-snapshot and handle-following oracles", "DESIGN.md 5 (C04)")
